@@ -1,2 +1,142 @@
+/-!
+# Model B — immutable ordered trees
+
+`Tree α` is a finite ordered rose tree: a payload and an ordered list of subtrees.
+A *node object* of the Python library is represented by the whole subtree hanging below it
+(`t : Tree α`): it carries the node's payload (`t.label`) and its `children` tuple (`t.kids`).
+Upward navigation uses the zipper view `(root, addr)` defined at the end of this file.
+
+This file imports nothing; everything in it is executable and used by the driver.
+-/
+
+namespace Anytree
+
 inductive Tree (α : Type) where
   | node : α → List (Tree α) → Tree α
+  deriving Repr
+
+namespace Tree
+variable {α β : Type}
+
+def label : Tree α → α
+  | node a _ => a
+
+def kids : Tree α → List (Tree α)
+  | node _ cs => cs
+
+@[simp] theorem label_node (a : α) (cs : List (Tree α)) : (node a cs).label = a := rfl
+@[simp] theorem kids_node (a : α) (cs : List (Tree α)) : (node a cs).kids = cs := rfl
+theorem eta : ∀ t : Tree α, node t.label t.kids = t
+  | node _ _ => rfl
+
+/-! ## textbook traversals (yield payloads) — these are *specifications* -/
+
+mutual
+/-- pre-order: a node before its children, children left to right -/
+def pre : Tree α → List α
+  | node a cs => a :: preL cs
+def preL : List (Tree α) → List α
+  | [] => []
+  | c :: cs => pre c ++ preL cs
+end
+
+mutual
+/-- post-order: all children's subtrees left to right, then the node -/
+def post : Tree α → List α
+  | node a cs => postL cs ++ [a]
+def postL : List (Tree α) → List α
+  | [] => []
+  | c :: cs => post c ++ postL cs
+end
+
+mutual
+def size : Tree α → Nat
+  | node _ cs => 1 + sizeL cs
+def sizeL : List (Tree α) → Nat
+  | [] => 0
+  | c :: cs => size c + sizeL cs
+end
+
+mutual
+/-- number of edges on the longest downward path -/
+def height : Tree α → Nat
+  | node _ cs => heightL cs
+/-- `0` for the empty list, else `1 + max height` -/
+def heightL : List (Tree α) → Nat
+  | [] => 0
+  | c :: cs => max (height c + 1) (heightL cs)
+end
+
+mutual
+/-- payloads of the nodes at depth `k` below (and including, for `k = 0`) the root, left to right -/
+def atDepth : Nat → Tree α → List α
+  | 0, node a _ => [a]
+  | k+1, node _ cs => atDepthL k cs
+def atDepthL : Nat → List (Tree α) → List α
+  | _, [] => []
+  | k, c :: cs => atDepth k c ++ atDepthL k cs
+end
+
+/-- one list per depth level `0 … height` -/
+def levels (t : Tree α) : List (List α) :=
+  (List.range (t.height + 1)).map (fun k => atDepth k t)
+
+/-- level order = concatenation of the levels -/
+def levelOrder (t : Tree α) : List α := (levels t).flatten
+
+/-- reverse every second list (indices 1, 3, 5, …) -/
+def zigzag : List (List β) → List (List β)
+  | [] => []
+  | [l] => [l]
+  | l₀ :: l₁ :: rest => l₀ :: l₁.reverse :: zigzag rest
+
+mutual
+/-- relabel every node with the node object itself (its whole subtree) -/
+def decorate : Tree α → Tree (Tree α)
+  | node a cs => node (node a cs) (decorateL cs)
+def decorateL : List (Tree α) → List (Tree (Tree α))
+  | [] => []
+  | c :: cs => decorate c :: decorateL cs
+end
+
+mutual
+def map (f : α → β) : Tree α → Tree β
+  | node a cs => node (f a) (mapL f cs)
+def mapL (f : α → β) : List (Tree α) → List (Tree β)
+  | [] => []
+  | c :: cs => map f c :: mapL f cs
+end
+
+/-! ## zipper view: a node is `(root, address)` -/
+
+abbrev Addr := List Nat
+
+/-- the subtree at an address (`none` if the address leaves the tree) -/
+def sub : Tree α → Addr → Option (Tree α)
+  | t, [] => some t
+  | node _ cs, i :: is =>
+    match cs[i]? with
+    | none => none
+    | some c => sub c is
+
+mutual
+/-- all addresses, in pre-order -/
+def addrs : Tree α → List Addr
+  | node _ cs => [] :: addrsL 0 cs
+def addrsL : Nat → List (Tree α) → List Addr
+  | _, [] => []
+  | i, c :: cs => (addrs c).map (i :: ·) ++ addrsL (i+1) cs
+end
+
+mutual
+/-- relabel every node with its address below the root -/
+def addrTreeAux : Addr → Tree α → Tree Addr
+  | p, node _ cs => node p (addrTreeAuxL p 0 cs)
+def addrTreeAuxL : Addr → Nat → List (Tree α) → List (Tree Addr)
+  | _, _, [] => []
+  | p, i, c :: cs => addrTreeAux (p ++ [i]) c :: addrTreeAuxL p (i+1) cs
+end
+def addrTree (t : Tree α) : Tree Addr := addrTreeAux [] t
+
+end Tree
+end Anytree
